@@ -253,6 +253,28 @@ def _tx_case(repo, it, S, spec):
     for fld in ("start", "end", "bin"):
         if whole.fields.get(fld) != part.fields.get(fld):
             out.append((fld, f"{desc}: .{fld} is {part.fields.get(fld)} on the chunk-built twin, {whole.fields.get(fld)} on the chromosome", f"{cls}.__init__"))
+    if kind.startswith("ctx") and len(cds) > 1 and all(cs <= s_ and e_ <= ce for s_, e_ in exons) and cstrand == "PLUS" and \
+            not any(a_[1] == b_[0] for a_, b_ in zip(cds, cds[1:])) and not any(a_[1] == b_[0] for a_, b_ in zip(exons, exons[1:])):
+        # (lifting a location merges blocks with a 0-bp gap, so layouts with adjacent blocks are not the same object afterwards)
+        # the convenience constructor from a chunk-relative location: a transcript whose CDS carries an annotated internal frameshift
+        # (frames that do not follow from the block lengths) keeps it - same dictionary as the twin built with plain coordinates
+        shifted = [fr[0]] + [F[{"ZERO": "ONE", "ONE": "TWO", "TWO": "ZERO"}[x.name]] for x in fr[1:]]
+        try:
+            plain_tw = mk_transcript(it, exons, S[sn], cds=cds, frames=shifted, parent_or_seq_chunk_parent=pk, transcript_id="fs")
+            falt = repo.fn(f"{cls}.from_chunk_relative_location")
+            n += 1
+            ka, alt = run(it, falt, [plain_tw.fields["_location"]], {"cds": plain_tw.fields["cds"], "transcript_id": "fs"}, None)
+            if ka != "ok":
+                out.append(("from_chunk_relative_location with an annotated frameshift", f"{desc}: raises {alt}", falt.qual))
+            else:
+                kd1, d1 = run(it, f if False else repo.fn(f"{cls}.to_dict"), [], {}, plain_tw)
+                kd2, d2 = run(it, repo.fn(f"{cls}.to_dict"), [], {}, alt)
+                if kd1 != kd2 or strip_opaque(d1) != strip_opaque(d2):
+                    out.append(("from_chunk_relative_location with an annotated frameshift", f"{desc}: built through from_chunk_relative_location with CDS frames "
+                                f"{[x.name for x in shifted]} the dictionary is {strip_opaque(d2).get('cds_frames') if kd2 == 'ok' else d2}; the twin built from plain "
+                                f"coordinates on the same chunk has {strip_opaque(d1).get('cds_frames') if kd1 == 'ok' else d1}", falt.qual))
+        except Raised:
+            pass
     if kind.startswith("ctx"):
         # whether the transcript is coding, and where its CDS lies on the chromosome, do not depend on the chunk - also when the chunk
         # holds only UTR, intron or nothing of the transcript
@@ -467,7 +489,40 @@ def _gene_twin_case(repo, it, S, spec):
         if (k1, v1) != (k2, v2):
             out.append(("cds_size of the chunk twin", f"{desc}: transcript {a.fields['transcript_id']} cds_size {k2}:{v2} on the chunk, {k1}:{v1} on the "
                         f"chromosome (documented: does not shrink)", fcs.qual))
-    return 1, out
+    # the merged transcript / CDS of the chunk-built gene is itself a chunk-relative view: same chromosome blocks as the twin's, a
+    # chunk-relative location that is the part inside the chunk, and the chromosome's bases for it
+    n = 1
+    for acc in ("get_merged_transcript", "get_merged_cds"):
+        fm = repo.fn(f"gene.gene:GeneInterval.{acc}")
+        n += 1
+        k1, mw = run(it, fm, [], {}, gw)
+        k2, mp = run(it, fm, [], {}, gp)
+        if k1 != "ok":
+            continue
+        if k2 != "ok":
+            out.append((f"{acc} of the chunk twin", f"{desc}: {acc}() raises {mp} on the chunk-built gene; the chromosome-built twin answers", fm.qual))
+            continue
+        bw = list(zip(mw.fields["_genomic_starts"], mw.fields["_genomic_ends"]))
+        bp = list(zip(mp.fields["_genomic_starts"], mp.fields["_genomic_ends"]))
+        if bw != bp:
+            out.append((f"{acc} of the chunk twin", f"{desc}: {acc}() has chromosome blocks {bp} on the chunk-built gene, {bw} on the twin", fm.qual))
+            continue
+        msn = mp.fields["_strand"].name
+        inside = [p_ for p_ in enum_positions(bw, msn) if cs <= p_ < ce]
+        loc = mp.fields["_location"]
+        got = [] if is_empty_obj(loc) else [p_ + cs for p_ in enum_positions(blocks_of(loc), strand_of(loc).name)]
+        if got != inside:
+            out.append((f"{acc} of the chunk twin: chunk-relative location", f"{desc}: the feature returned by {acc}() has chunk-relative location "
+                        f"{'EmptyLocation' if is_empty_obj(loc) else blocks_of(loc)} = chromosome bases {got}; the part of its blocks inside the chunk is {inside}", fm.qual))
+            continue
+        if inside:
+            fs = repo.fn("gene.interval:AbstractFeatureInterval.get_spliced_sequence")
+            k3, sv = run(it, fs, [], {}, mp)
+            wseq = bases(inside, msn)
+            if k3 != "ok" or sv.fields["sequence"] != wseq:
+                out.append((f"{acc} of the chunk twin: sequence", f"{desc}: the feature returned by {acc}() gives get_spliced_sequence() -> {k3}:"
+                            f"{sv.fields['sequence'] if k3 == 'ok' else sv}; the chromosome stretch is {wseq!r}", fm.qual))
+    return n, out
 
 
 def rg_guids(ctx):
